@@ -297,9 +297,38 @@ fn compare(pr: &Projection, real: &(Vec<(u8, u8)>, BTreeMap<u8, u8>)) -> Result<
     Ok(())
 }
 
-pub fn run(ctx: &Ctx, prop: &str, projs: &[Projection], max: usize) -> ConformResult {
+/// A model state in which one explored trace ends and that contains the projection's node: used to judge a
+/// deviation of the real replica from the model (below).
+pub struct Witness {
+    pub cfg: Cfg,
+    pub last: S,
+}
+
+/// The real replica ended in a log the model does not predict for these events.  Put the real log in place of
+/// the model's for that node in the state the witness trace ends in (the other nodes as the model has them;
+/// confirmations the model delivered to this node follow the transaction to wherever it sits) and evaluate the
+/// property there.
+fn judge_deviation(prop: &str, pr: &Projection, real: &(Vec<(u8, u8)>, BTreeMap<u8, u8>), w: &Witness) -> Option<String> {
+    let mut s = w.last.clone();
+    let node = pr.node as usize;
+    let model_log = s.nodes[node].log.clone();
+    s.nodes[node].log = real
+        .0
+        .iter()
+        .map(|(tx, k)| {
+            let from_model = model_log.iter().find(|e| e.tx == *tx && e.k == *k);
+            let c = from_model.map(|e| e.count).unwrap_or_else(|| real.1.get(tx).copied().unwrap_or(0));
+            crate::model::Entry { tx: *tx, k: *k, count: c, ccount: from_model.map(|e| e.ccount).unwrap_or(c) }
+        })
+        .collect();
+    let m = crate::model::Proto(w.cfg.clone());
+    if prop == "C10" { crate::model::c10_violation(&m, &s) } else { crate::model::c11_violation(&m, &s) }
+}
+
+pub fn run(ctx: &Ctx, prop: &str, projs: &[(Projection, Witness)], max: usize) -> ConformResult {
     let mut res = ConformResult { replayed: 0, agreed: 0, events: 0, samples: vec![] };
-    for pr in projs.iter().take(max) {
+    let mut deviations: Vec<String> = Vec::new();
+    for (pr, witness) in projs.iter().take(max) {
         res.replayed += 1;
         res.events += pr.events.len() as u64;
         match replay_blocking(pr) {
@@ -312,11 +341,28 @@ pub fn run(ctx: &Ctx, prop: &str, projs: &[Projection], max: usize) -> ConformRe
                     }
                 }
                 Err(e) => {
-                    // the model misrepresents the code: that is a defect of the machinery, not of the repository
-                    let _ = (ctx, prop);
-                    vcommon::machinery_fail(&format!("model and code disagree on a replica-side trace: {e}; events {:?} (node {}, transaction lengths {:?})", pr.events, pr.node, pr.tx_lens));
+                    // The real replica does something the model does not.  If what it does breaks the property in
+                    // the global state the trace ends in, that is a finding about the repository; otherwise the
+                    // model misrepresents the code in a way the property cannot see from here - a defect of the
+                    // machinery, reported after all projections were looked at.
+                    match judge_deviation(prop, pr, &real, witness) {
+                        Some(v) => {
+                            let kind = if pr.events.iter().any(|e| matches!(e, REv::SyncResp { .. })) { "with-catch-up-response" } else if pr.events.iter().any(|e| matches!(e, REv::Restart)) { "with-restart" } else { "replication-only" };
+                            ctx.violation(
+                                &format!("{prop}/real-replica-deviates-from-model/{kind}"),
+                                &format!("{v}; the real replicator, given the events node {} sees in a model trace ({:?}; transaction lengths {:?}), ends with the log {:?} (counts {:?}) where the model has {:?}; the other nodes as in the state that trace ends in", pr.node, pr.events, pr.tx_lens, real.0, real.1, pr.log),
+                                json!({"projection": {"node": pr.node, "tx_lens": pr.tx_lens, "buffer_limit": pr.buffer_limit, "events": format!("{:?}", pr.events)}, "real_log": format!("{:?}", real.0), "model_log": format!("{:?}", pr.log)}),
+                            );
+                        }
+                        None => deviations.push(format!("{e}; events {:?} (node {}, transaction lengths {:?})", pr.events, pr.node, pr.tx_lens)),
+                    }
                 }
             },
+        }
+    }
+    if let Some(d) = deviations.first() {
+        if ctx.violation_count() == 0 {
+            vcommon::machinery_fail(&format!("model and code disagree on {} replica-side trace(s), none of which breaks {prop} where it ends; first: {d}", deviations.len()));
         }
     }
     res
